@@ -1,11 +1,109 @@
-/- BDS 3,0 — crates/rs1090/src/decode/bds/bds30.rs   (STUB: not modelled yet) -/
+/- BDS 3,0 ACAS active resolution advisory — crates/rs1090/src/decode/bds/bds30.rs -/
 import Rs1090.Model.Decode.Common
 namespace Rs1090.Model.Bds30
 open Rs1090 Rs1090.Model
 
-/-- STUB -/
-def modelled : Bool := false
+def modelled : Bool := true
 
-def read : R SerFields := R.fail .other
+/-- `fail_if_not30` (deku `map` on the first byte): `Err(DekuError::Assertion)` unless `0x30` -/
+def failIfNot30 (v : Nat) : Outcome Nat :=
+  if v == 0x30 then .ok v else .err .assertion
+
+/-- the `map` closure of the ARA / RAC bits: `if *issued_ra { Some(v) } else { None }` -/
+def ifIssued (issued v : Bool) : Option Bool := if issued then some v else none
+
+/-- `Option<bool>` with `skip_serializing_if = "Option::is_none"` -/
+def optFlag (k : Key) (v : Option Bool) : Key × Option Json := skipNone k (v.map jbool)
+
+/-- one ARA / RAC bit: read 1 bit as `bool`, then the `map` closure -/
+def araBit (issued : Bool) : R (Option Bool) := do
+  let v ← flag
+  pure (ifIssued issued v)
+
+/-- `range`: `|n: u8| if n == 0 { None } else { Some((n as f32 - 1.) / 10.) }` — an `f32`;
+    exact value `(n-1)/10` NM (the f32 nearest to it prints as that one-decimal number) -/
+def threatRange (n : Nat) : Option Json :=
+  if n == 0 then none else some (jrat ((n : Int) - 1) 10)
+
+/-- `bearing`: `|n: u16| if n == 0 || n > 60 { None } else { Some(6 * (n - 1) + 3) }` in
+    overflow-checked `u16` arithmetic (after the C08 repair; the original code had no upper test and
+    reported 363, 369, 375 degrees for the unassigned codes 61..63). -/
+def threatBearing (n : Nat) : Outcome (Option Nat) :=
+  if n == 0 || n > 60 then .ok none else do
+    let a ← subU n 1
+    let b ← mulU 16 6 a
+    let c ← addU 16 b 3
+    pure (some c)
+
+/-- `ThreatType` (deku enum, 2-bit id, every id has a plain `id = "…"` variant so nothing is
+    re-read) as the flattened, untagged serde value:
+    * 0 `NoIdentity { unused: u32 (26 bits, skipped) }`, 3 `NotAssigned { … }`: a struct variant
+      with no serialised field — flattening it adds nothing;
+    * 1 `ThreatAddress(ThreadAddress { threat_identity: ICAO (24 bits, big endian), zeros: 2 bits
+      (skipped, not checked) })`;
+    * 2 `ThreatOrientation { altitude: AC13Field (13), range (7), bearing (6) }` with serde
+      renames; `Option`s without `skip_serializing_if` print `null`. -/
+def threatType : R SerFields := do
+  let id ← enumId 2
+  if id == 1 then do
+    let icao ← bits 24
+    let _zeros ← bits 2
+    pure (.ok [fld (key! "threat_identity") (jhex6 icao)])
+  else if id == 2 then do
+    let code ← bits 13
+    let alt ← R.lift (ac13 code)
+    let r ← bits 7
+    let b ← bits 6
+    let bearing ← R.lift (threatBearing b)
+    pure (.ok [
+      fld (key! "threat_altitude") (jnat alt),
+      fldOpt (key! "threat_range") (threatRange r),
+      fldOpt (key! "threat_bearing") (bearing.map jnat) ])
+  else do
+    let _unused ← bits 26
+    pure (.ok [])
+
+/-- the fields of `ACASResolutionAdvisory` itself, in declaration order (`bds` and
+    `reserved_acas3` are `#[serde(skip)]`; the ten ARA/RAC options are skipped when `None`) -/
+def ownFields (issued : Bool)
+    (corrective downward increased reversal crossing positive noBelow noAbove noLeft noRight : Option Bool)
+    (terminated multiple : Bool) : Fields := [
+  fld (key! "issued_ra") (jbool issued),
+  optFlag (key! "corrective") corrective,
+  optFlag (key! "downward_sense") downward,
+  optFlag (key! "increased_rate") increased,
+  optFlag (key! "sense_reversal") reversal,
+  optFlag (key! "altitude_crossing") crossing,
+  optFlag (key! "positive") positive,
+  optFlag (key! "no_below") noBelow,
+  optFlag (key! "no_above") noAbove,
+  optFlag (key! "no_left") noLeft,
+  optFlag (key! "no_right") noRight,
+  fld (key! "terminated") (jbool terminated),
+  fld (key! "multiple") (jbool multiple) ]
+
+/-- `ACASResolutionAdvisory`: 8 + 1 + 6 + 7 + 4 + 1 + 1 + (2 + 26) = 56 bits.
+    serde: `tag = "bds", rename = "30"`; `threat_type` flattened (last). -/
+def read : R SerFields := do
+  let b ← bits 8
+  let _ ← R.lift (failIfNot30 b)
+  let issued ← flag
+  let corrective ← araBit issued
+  let downward ← araBit issued
+  let increased ← araBit issued
+  let reversal ← araBit issued
+  let crossing ← araBit issued
+  let positive ← araBit issued
+  let _acas3 ← bits 7
+  let noBelow ← araBit issued
+  let noAbove ← araBit issued
+  let noLeft ← araBit issued
+  let noRight ← araBit issued
+  let terminated ← flag
+  let multiple ← flag
+  let tt ← threatType
+  pure <| tagged (key! "bds") (key! "30") <| tt.map fun fs =>
+    ownFields issued corrective downward increased reversal crossing positive
+      noBelow noAbove noLeft noRight terminated multiple ++ fs
 
 end Rs1090.Model.Bds30
